@@ -555,8 +555,28 @@ fn gen_case(rng: &mut Rng, prop: &str, mode: &str, tier: Tier) -> W1Case {
         let id = format!("r{}", k % nids);
         let mut r = rg.rule(rng, &id, &swarm);
         if mode == "actions" {
-            // C11: many rank ties, no sampling
-            r["rank"] = json!(rng.below(2));
+            // C11: several rules match the same request, with rank ties and distinct ranks, conflicting effects,
+            // stop and reset flags at every relative position; no sampling
+            r["rank"] = json!(rng.below(4));
+            if rng.chance(2, 3) {
+                let shared = rng.pick_str(&["/a", "/blog/@slug"]);
+                let src = json!({"scheme": Value::Null, "host": Value::Null, "ips": Value::Null, "path": shared, "query": Value::Null, "headers": Value::Null,
+                    "methods": Value::Null, "exclude_methods": Value::Null, "response_status_codes": r["source"]["response_status_codes"].clone(),
+                    "exclude_response_status_codes": r["source"]["exclude_response_status_codes"].clone(), "sampling": Value::Null});
+                r["source"] = src;
+                if shared.contains("@slug") {
+                    r["markers"] = json!([{"name": "slug", "regex": "(?:[a-z]|\\-)+?"}]);
+                } else {
+                    r.as_object_mut().unwrap().remove("markers");
+                    if let Some(t) = r["target"].as_str() {
+                        if t.contains('@') {
+                            r["target"] = json!(format!("/t/{id}"));
+                        }
+                    }
+                }
+                r["stop"] = if rng.chance(1, 4) { json!(true) } else { Value::Null };
+                r["reset"] = if rng.chance(1, 4) { json!(true) } else { Value::Null };
+            }
         }
         rules.push(r);
     }
@@ -737,6 +757,23 @@ fn gen_case(rng: &mut Rng, prop: &str, mode: &str, tier: Tier) -> W1Case {
             ip: rng.pick(&[None, Some("10.1.2.3".to_string())]).clone(),
             dt_ns: 0,
         });
+    }
+    if mode == "actions" {
+        for path in ["/a", "/blog/hello", "/blog/a-b"] {
+            probes.insert(
+                0,
+                Probe {
+                    path: path.to_string(),
+                    host: rng.pick(&[None, Some("example.com".to_string())]).clone(),
+                    scheme: rng.pick(&[None, Some("https".to_string())]).clone(),
+                    method: None,
+                    headers: Vec::new(),
+                    ip: None,
+                    dt_ns: 0,
+                },
+            );
+        }
+        rng.shuffle(&mut probes);
     }
     W1Case {
         config,
